@@ -134,16 +134,19 @@ func init() {
 	})
 	register(&Property{
 		ID: "C41",
-		Explanation: "Decides the structural clauses of the tree encoding, not byte-level losslessness for arbitrary values: (ordered-insert) in TreeJSONBuilder.AddNode, with the comparison of node.Name against builder.lastName specialised to 'not strictly greater', neither a write to the buffer nor the update of lastName is reachable; lastName is set to node.Name on every path to the payload write, which is json.Marshal(node); the archiver sorts directory entries (dirToNodeAndEntries) and target names (tree.NodeNames) before saving; (marshal-siblings) Node.MarshalJSON rewrites exactly Name and LinkTargetRaw besides the time fields and Node.UnmarshalJSON restores exactly Name, LinkTarget and LinkTargetRaw; Name is Quote'd on the way out and Unquote'd (error reported) on the way in; the raw link target is stored exactly when the target is invalid UTF-8 and overrides LinkTarget when present; every time.Time field of Node (enumerated from the struct type) is clamped with fixTime before encoding, and fixTime takes Year() of the value it shifts and returns, with bounds 0 and 9999, shifting with AddDate; (equals-coverage) Node.Equals and its same* helpers read every serialised field (enumerated from the struct tags; exceptions LinkTargetRaw and Path); (string-fields-lossless) every JSON-visible string field of Node and ExtendedAttribute is classified — Name is Quote'd/Unquote'd, LinkTarget has its raw copy, Type is an enumeration restic writes; User, Group and ExtendedAttribute.Name are plain strings, for which encoding/json replaces invalid UTF-8 by U+FFFD: these three are genuine losses (two xattr names differing in one invalid byte collapse; demonstrated) and are reported as KNOWN-FINDINGs, a repair would change the repository format. Not decided: that encoding/json and strconv round-trip every byte sequence, attribute value encodings, and the decoder's skipping of unknown keys.",
+		Explanation: "Decides the structural clauses of the tree encoding, not byte-level losslessness for arbitrary values: (ordered-insert) in TreeJSONBuilder.AddNode, with the comparison of node.Name against builder.lastName specialised to 'not strictly greater', neither a write to the buffer nor the update of lastName is reachable; lastName is set to node.Name on every path to the payload write, which is json.Marshal(node); the archiver sorts directory entries (dirToNodeAndEntries) and target names (tree.NodeNames) before saving; (marshal-siblings) Node.MarshalJSON rewrites exactly Name and LinkTargetRaw besides the time fields and Node.UnmarshalJSON restores exactly Name, LinkTarget and LinkTargetRaw; Name is Quote'd on the way out and Unquote'd (error reported) on the way in; the raw link target is stored exactly when the target is invalid UTF-8 and overrides LinkTarget when present; every time.Time field of Node (enumerated from the struct type) is clamped with fixTime before encoding, and fixTime takes Year() of the value it shifts and returns, with bounds 0 and 9999, shifting with AddDate; (equals-coverage) Node.Equals and its same* helpers read every serialised field (enumerated from the struct tags; exceptions LinkTargetRaw and Path); (string-fields-lossless) every JSON-visible string field of Node and ExtendedAttribute is classified — Name is Quote'd/Unquote'd, LinkTarget has its raw copy, Type is an enumeration restic writes; User, Group and ExtendedAttribute.Name are plain strings, for which encoding/json replaces invalid UTF-8 by U+FFFD: these three are genuine losses (two xattr names differing in one invalid byte collapse; demonstrated) and are reported as KNOWN-FINDINGs, a repair would change the repository format. (name-quote-symmetric) Node.MarshalJSON replaces the Name of the marshalled value by the inside of strconv.Quote(node.Name) on every path to json.Marshal, and Node.UnmarshalJSON succeeds only after strconv.Unquote of the stored name — the two are inverses only if both are unconditional (added after a seeded change that quoted only names that 'need' it: a name with a line feed could be written and never read). Not decided: that encoding/json and strconv round-trip every byte sequence, attribute value encodings, and the decoder's skipping of unknown keys.",
 		Assumptions: commonAssumptions,
 		Technique:   "static analysis: specialised path-sensitive reachability on the order test + writer/reader field-set agreement + struct-field coverage (go/ssa, go/types)",
 		Run: func(c *eng.Ctx) {
+			ruleNameQuoteSymmetric(c)
 			ruleOrderedInsert(c)
 			ruleMarshalSiblings(c)
 			ruleEqualsCoverage(c)
 			ruleStringFieldsLossless(c)
 		},
 		Controls: []Control{
+			{Name: "ascii-names-not-quoted", File: "internal/data/node.go",
+				Old: "	name := strconv.Quote(node.Name)\n	nj.Name = name[1 : len(name)-1]\n", New: "	if !utf8.ValidString(node.Name) {\n		name := strconv.Quote(node.Name)\n		nj.Name = name[1 : len(name)-1]\n	}\n", Rule: "name-quote-symmetric"},
 			{Name: "name-written-without-quoting", File: "internal/data/node.go",
 				Old: "	name := strconv.Quote(node.Name)\n	nj.Name = name[1 : len(name)-1]\n", New: "	nj.Name = node.Name\n", Rule: "string-fields-lossless"},
 			{Name: "allow-equal-names", File: "internal/data/tree.go",
